@@ -213,6 +213,34 @@ def nonTerminatingLinebreaks : PM Bool := do
     skipLinesLoop ((← get).v.rest.length + 1)
   pure linebreak
 
+/-- Executable twin of `skipLinesLoop`: the fuel `l.length + c` is kept as the pair `(l, c)` and
+used up one list cell per iteration, so that the caller can pass the remaining input itself
+instead of its length (which costs a walk over the whole remaining input per call). -/
+def skipLinesLoopFast : VBytes → Nat → PM Unit
+  | [], c => skipLinesLoop c
+  | _ :: l, c => do
+    if ← «matches» (orParse comment newline) then skipLinesLoopFast l c else pure ()
+
+theorem skipLinesLoop_eq_fast (l : VBytes) (c : Nat) :
+    skipLinesLoop (l.length + c) = skipLinesLoopFast l c := by
+  induction l with
+  | nil => simp only [List.length_nil, Nat.zero_add, skipLinesLoopFast]
+  | cons b l ih =>
+    have h : (b :: l).length + c = (l.length + c) + 1 := by
+      simp only [List.length_cons]; omega
+    rw [h, skipLinesLoop, skipLinesLoopFast, ih]
+
+/-- Executable form of `nonTerminatingLinebreaks` (no `rest.length`). -/
+def nonTerminatingLinebreaksFast : PM Bool := do
+  let linebreak ← «matches» newline
+  if linebreak then
+    skipLinesLoopFast (← get).v.rest 1
+  pure linebreak
+
+@[csimp] theorem nonTerminatingLinebreaks_eq_fast :
+    @nonTerminatingLinebreaks = @nonTerminatingLinebreaksFast := by
+  simp only [nonTerminatingLinebreaks, nonTerminatingLinebreaksFast, skipLinesLoop_eq_fast]
+
 /-- `int(input).map_err(|lit| exceeds_var_count(..))`. -/
 def litInt : PM (Option Int) := do
   match ← int isizeTy with
@@ -246,6 +274,50 @@ def clauseLits (l : LitTy) (limit : Int) : PM (Option (List Int)) := do
   | some lit =>
     let lits ← clauseLitsLoop l limit ((← get).v.rest.length + 2) lit []
     pure (some lits)
+
+/-- Executable twin of `clauseLitsLoop` with the fuel `fl.length + c` kept as `(fl, c)`, see
+`skipLinesLoopFast`. -/
+def clauseLitsLoopFast (l : LitTy) (limit : Int) : VBytes → Nat → Int → List Int → PM (List Int)
+  | [], c, lit, acc => clauseLitsLoop l limit c lit acc
+  | _ :: fl, c, lit, acc =>
+    if lit == 0 then pure acc.reverse
+    else if -limit ≤ lit ∧ lit ≤ limit then do
+      let acc := l.fromDimacs lit :: acc
+      setMark
+      match ← litInt with
+      | some next => clauseLitsLoopFast l limit fl c next acc
+      | none =>
+        if ← nonTerminatingLinebreaks then
+          setMark
+          let next ← orGiveUp litInt unexpected
+          clauseLitsLoopFast l limit fl c next acc
+        else unexpected
+    else exceedsVarCount
+
+theorem clauseLitsLoop_eq_fast (l : LitTy) (limit : Int) (fl : VBytes) (c : Nat) :
+    ∀ (lit : Int) (acc : List Int),
+      clauseLitsLoop l limit (fl.length + c) lit acc = clauseLitsLoopFast l limit fl c lit acc := by
+  induction fl with
+  | nil => intro lit acc; simp only [List.length_nil, Nat.zero_add, clauseLitsLoopFast]
+  | cons b fl ih =>
+    intro lit acc
+    have h : (b :: fl).length + c = (fl.length + c) + 1 := by
+      simp only [List.length_cons]; omega
+    rw [h, clauseLitsLoop, clauseLitsLoopFast]
+    simp only [ih]
+
+/-- Executable form of `clauseLits` (no `rest.length`). -/
+def clauseLitsFast (l : LitTy) (limit : Int) : PM (Option (List Int)) := do
+  setMark
+  match ← litInt with
+  | none => pure none
+  | some lit =>
+    let lits ← clauseLitsLoopFast l limit (← get).v.rest 2 lit []
+    pure (some lits)
+
+@[csimp] theorem clauseLits_eq_fast : @clauseLits = @clauseLitsFast := by
+  funext l limit
+  simp only [clauseLits, clauseLitsFast, clauseLitsLoop_eq_fast]
 
 end Cnf
 end Flussab
